@@ -34,6 +34,8 @@ pub static START: OnceLock<Instant> = OnceLock::new();
 pub static PROGRESS: AtomicU64 = AtomicU64::new(0);
 /// logical clock shared by the threads of a scenario ("tick" bumps it, "wait_tick" spins until it reaches n)
 pub static TICK: AtomicU64 = AtomicU64::new(0);
+/// number of logical-clock waits / rendezvous that gave up: a scenario with a non-zero count proves nothing about ordering
+pub static GAVE_UP: AtomicU64 = AtomicU64::new(0);
 /// rendezvous counters ("meet": every participating thread bumps counter k and spins until n threads have arrived)
 static MEET: [AtomicU64; 4096] = {
     const Z: AtomicU64 = AtomicU64::new(0);
@@ -144,6 +146,9 @@ pub struct Beh {
     ret: String,
     val: Value,
     reenter: J,
+    /// >0: when invoked the handler bumps the logical clock and then waits (bounded spin) until the clock reaches this value, so
+    /// that another thread can act in the middle of the evaluation that invoked it
+    gate: u64,
 }
 
 fn beh_from(j: &J) -> Arc<Beh> {
@@ -162,6 +167,7 @@ fn beh_from(j: &J) -> Arc<Beh> {
             ser::value_from_json(j.get("v")).unwrap_or(Value::None)
         },
         reenter: j.get("reenter").clone(),
+        gate: j.get("gate").int_or(0) as u64,
     })
 }
 
@@ -208,6 +214,21 @@ fn run_beh(b: &Beh, kind: &'static str, name: &str, args: Vec<Value>) -> EResult
                     b.id, kind, ok, poisoned
                 ))
             });
+        }
+    }
+    if b.gate > 0 {
+        TICK.fetch_add(1, Ordering::SeqCst);
+        let mut spins: u64 = 0;
+        let t_wait = Instant::now();
+        while TICK.load(Ordering::SeqCst) < b.gate && (spins < 400_000_000 || t_wait.elapsed() < Duration::from_secs(20)) {
+            std::hint::spin_loop();
+            spins += 1;
+            if spins % 1024 == 0 {
+                std::thread::yield_now();
+            }
+        }
+        if TICK.load(Ordering::SeqCst) < b.gate {
+            GAVE_UP.fetch_add(1, Ordering::SeqCst);
         }
     }
     if !b.reenter.is_null() {
@@ -294,6 +315,23 @@ fn do_reenter(act: &J) -> String {
                 }
             } else {
                 "\"done\"".to_string()
+            }
+        }
+        "set_fn" => {
+            // the handler installs / replaces a function in the context it is being evaluated in, through its handle
+            let h = ST.with(|st| st.borrow().ctx.as_ref().map(ctx_handle));
+            match h {
+                Some(mut h) => {
+                    if let Err(std::sync::TryLockError::WouldBlock) = h.0.try_lock() {
+                        return "\"would_block\"".to_string();
+                    }
+                    let beh = beh_from(act.get("beh"));
+                    let n = act.get("name").str().to_string();
+                    let n2 = n.clone();
+                    h.set_func(&n, Arc::new(move |params| run_beh(&beh, "cfn", &n2, params)));
+                    "\"done\"".to_string()
+                }
+                None => "\"no_ctx\"".to_string(),
             }
         }
         "lock_then_reg" => {
@@ -403,7 +441,8 @@ impl Interp {
             let mut g = SHARED_CTXS.get_or_init(|| Mutex::new(HashMap::new())).lock().unwrap();
             return ctx_handle(g.entry(id.int()).or_insert_with(Context::new));
         }
-        let c = self.ctxs.entry(id.int()).or_insert_with(Context::new);
+        // both documented ways of making an empty context are used: Context::new() and the create_context! macro
+        let c = self.ctxs.entry(id.int()).or_insert_with(|| if id.int() % 2 == 0 { Context::new() } else { expression_engine::create_context!() });
         ctx_handle(c)
     }
 
@@ -757,18 +796,29 @@ impl Interp {
                         std::thread::yield_now();
                     }
                 }
+                if MEET[k].load(Ordering::SeqCst) < n {
+                    // the rendezvous never completed (machine overloaded?): the scenario's ordering assumptions are void
+                    GAVE_UP.fetch_add(1, Ordering::SeqCst);
+                    out.push_str(",\"gave_up\":true");
+                }
             }
             "wait_tick" => {
                 // bounded spin on the logical clock: lets a registration land while other threads are in
                 // the middle of a block of evaluations; gives up after a generous number of yields
                 let n = j.get("n").int() as u64;
                 let mut spins: u64 = 0;
-                while TICK.load(Ordering::SeqCst) < n && spins < 200_000_000 {
+                let t_wait = Instant::now();
+                while TICK.load(Ordering::SeqCst) < n && (spins < 200_000_000 || t_wait.elapsed() < Duration::from_secs(20)) {
                     std::hint::spin_loop();
                     spins += 1;
                     if spins % 1024 == 0 {
                         std::thread::yield_now();
                     }
+                }
+                if TICK.load(Ordering::SeqCst) < n {
+                    // gave up: the ordering this scenario relies on was NOT established; the judge must discard the run
+                    GAVE_UP.fetch_add(1, Ordering::SeqCst);
+                    out.push_str(",\"gave_up\":true");
                 }
             }
             other => {
@@ -1179,7 +1229,7 @@ fn main() {
             for (i, s) in steps.iter().enumerate() {
                 it.step(i, s);
             }
-            emit("{\"end\":true}");
+            emit(&format!("{{\"end\":true,\"gave_up\":{}}}", GAVE_UP.load(Ordering::SeqCst)));
         })
         .unwrap();
     let code = watchdog::supervise(worker, cpu_budget_s);
